@@ -311,6 +311,48 @@ fn generate(full: bool) -> String {
             }
         }
     }
+    // (iv-c) derived structs whose members all have call-recording setup handlers: every member's setup, once per
+    //        member (also for two members of the same type), in member order
+    {
+        let shapes: Vec<Vec<(K, usize)>> = vec![
+            vec![(K::WriteCustom, 1), (K::ReadCustom, 0)],
+            vec![(K::ReadCustom, 0), (K::ReadCustom, 0)],
+            vec![(K::WriteCustom, 2), (K::ReadCustom, 1), (K::ReadCustom, 0)],
+            vec![(K::ReadCustom, 1), (K::WriteCustom, 0), (K::ReadCustom, 1)],
+            vec![(K::ReadCustom, 2), (K::Read, 1), (K::WriteCustom, 0), (K::ReadCustom, 2)],
+        ];
+        for sh in &shapes {
+            for form in 0..2 {
+                let mut e = Exp::default();
+                let mut body = String::new();
+                for (i, (k, n)) in sh.iter().enumerate() {
+                    let mut s = String::new();
+                    ty(&T::Leaf(*k, *n), &mut s, &mut e);
+                    if form == 0 {
+                        write!(body, "    pub f{}: {},\n", i, s).unwrap();
+                    } else {
+                        write!(body, "{}, ", s).unwrap();
+                    }
+                }
+                let name = format!("S{}", sid);
+                sid += 1;
+                let prelude = if form == 0 {
+                    format!("#[derive(SystemData)]\n#[allow(dead_code)]\npub struct {}<'a> {{\n{}    pub lt: PhantomData<&'a ()>,\n}}\n", name, body)
+                } else {
+                    format!("#[derive(SystemData)]\n#[allow(dead_code)]\npub struct {}<'a>({}PhantomData<&'a ()>);\n", name, body)
+                };
+                g.case("derive-setup-order", &format!("{}<'a>", name), &e, 3, &prelude);
+                // the same members as a plain tuple
+                let t = T::Tup(sh.iter().map(|(k, n)| T::Leaf(*k, *n)).collect());
+                let mut sx = String::new();
+                let mut e2 = Exp::default();
+                ty(&t, &mut sx, &mut e2);
+                if form == 0 {
+                    g.case("tuple-setup-order", &sx, &e2, 3, "");
+                }
+            }
+        }
+    }
     // generic variants
     for k in [K::Read, K::Write, K::OptRead, K::OptWrite, K::ReadExpect] {
         // type parameter + where clause + second lifetime (PhantomData of a borrowed type)
@@ -329,6 +371,12 @@ fn generate(full: bool) -> String {
             b = s1
         );
         g.case("derive-generic", &format!("{}<'a, 'static, R<0>>", name), &e, 2, &prelude);
+        // a second instantiation of the same generic struct: what it declares follows ITS type argument
+        {
+            let sub = |v: &Vec<usize>| -> Vec<usize> { v.iter().map(|x| if *x == 0 { 2 } else { *x }).collect() };
+            let e3 = Exp { reads: sub(&e.reads), writes: sub(&e.writes), opt: sub(&e.opt), dflt: sub(&e.dflt), need: sub(&e.need), custom: sub(&e.custom), ..e.clone() };
+            g.case("derive-generic-second-instantiation", &format!("{}<'a, 'static, R<2>>", name), &e3, 3, "");
+        }
         // nested: derived struct inside a tuple inside a derived tuple struct
         let mut e2 = e.clone();
         let mut s2 = String::new();
@@ -367,6 +415,30 @@ fn generate(full: bool) -> String {
                     ty(&t, &mut sx, &mut e);
                     e.self_conflict = true;
                     g.case("self-conflicting", &sx, &e, 2, "");
+                }
+                // the same through the derive macro's generated fetch: the member that fails comes last, the
+                // guards of the members in front of it have to be released by the unwinding
+                for form in 0..2 {
+                    let mut e = Exp::default();
+                    let mut body = String::new();
+                    for (i, leaf) in [T::Leaf(k1, 0), T::Leaf(K::Read, 1), T::Leaf(k2, 0)].iter().enumerate() {
+                        let mut sx = String::new();
+                        ty(leaf, &mut sx, &mut e);
+                        if form == 0 {
+                            write!(body, "    pub f{}: {},\n", i, sx).unwrap();
+                        } else {
+                            write!(body, "{}, ", sx).unwrap();
+                        }
+                    }
+                    e.self_conflict = true;
+                    let name = format!("S{}", sid);
+                    sid += 1;
+                    let prelude = if form == 0 {
+                        format!("#[derive(SystemData)]\n#[allow(dead_code)]\npub struct {}<'a> {{\n{}    pub lt: PhantomData<&'a ()>,\n}}\n", name, body)
+                    } else {
+                        format!("#[derive(SystemData)]\n#[allow(dead_code)]\npub struct {}<'a>({}PhantomData<&'a ()>);\n", name, body)
+                    };
+                    g.case("self-conflicting-derived", &format!("{}<'a>", name), &e, 2, &prelude);
                 }
             }
         }
